@@ -378,7 +378,12 @@ def run_literals(shard, ctx):
             texts.add(f'{rng.randrange(1, 1000)}e{rng.choice(["", "-"])}{rng.randrange(0, 7)}')
         else:
             texts.add(str(rng.randrange(0, 10 ** rng.randrange(1, 16))))
-    texts = sorted(texts)
+    # whole numbers no double holds exactly (beyond 2^53), written out or with an exponent: an Excel number is a double
+    big = {'9007199254740993', '9007199254740994', '9007199254740995', '18014398509481985', '123456789012345678', '99999999999999999999', '1e22', '1e23', '7e300', '1e308',
+           '179769313486231570' + '0' * 291}
+    while len(big) < 11 + shard['n'] // 20:
+        big.add(str(rng.randrange(2 ** 53, 10 ** rng.randrange(17, 30))))
+    texts = sorted(texts | big)
     per = 400
     for off in range(0, len(texts), per):
         batch = texts[off:off + per]
@@ -388,10 +393,32 @@ def run_literals(shard, ctx):
         for i, t in enumerate(batch):
             out = book.value(0, f'A{i + 1}')
             r.ev()
-            exp = float(t) if ('.' in t or 'e' in t) else int(t)
-            if not outcome_matches(out, [exp], exact=True):
+            exp = float(t) if ('.' in t or 'e' in t or int(t) > 2 ** 53) else int(t)
+            if t in big:
+                r.count('literals_beyond_2^53')
+            if not outcome_matches(out, [exp], exact=True) or (t in big and out.ok and type(out.value) is not float):
                 report(r, ID, None, {'formula': '=' + t, 'literal': True}, out.brief(), exp, monitor='literal-nearest-double')
             r.nt('L' + t)
+        # ... and arithmetic on them rounds and overflows like arithmetic on doubles
+        bigs = [t for t in batch if t in big]
+        if bigs:
+            cells2 = {}
+            for i, t in enumerate(bigs):
+                cells2[f'A{i + 1}'] = f'={t}+1'
+                cells2[f'B{i + 1}'] = f'={t}*3-{t}*3'
+                cells2[f'C{i + 1}'] = f'=IFERROR({t}*1e10*1e300,"overflow")'
+            book2 = pipeline.Book(wbspec.spec(wbspec.sheet('S1', cells2)), ctx.workdir, name=f'big{off}')
+            for i, t in enumerate(bigs):
+                x = float(t)
+                for col, exp in (('A', x + 1), ('B', x * 3 - x * 3), ('C', 'overflow' if x * 1e10 * 1e300 == float('inf') else x * 1e10 * 1e300)):
+                    out = book2.value(0, f'{col}{i + 1}')
+                    r.ev()
+                    if isinstance(exp, float) and (exp != exp or abs(exp) == float('inf')):
+                        r.count('overflowed_results_unjudged')      # what a cell shows for an overflow is outside the statement
+                        continue
+                    r.count('arithmetic_on_literals_beyond_2^53')
+                    if not outcome_matches(out, [exp], exact=True):
+                        report(r, ID, None, {'formula': cells2[f'{col}{i + 1}'], 'literal': True}, out.brief(), exp, monitor='literal-nearest-double')
     r.sample({'literals': ['=' + t for t in texts[:5]]})
 
 
